@@ -2218,6 +2218,19 @@ class Recipe:
         if self.locked:
             raise RuntimeError("Recipe has already been baked.")
 
+        # Everything that was declared must be used by some step.  This is checked before any step is
+        # executed so that a refused bake leaves the recipe as it was.
+        will_be_used = set()
+        for step in self.steps:
+            operands = list(step.operands[1:2]) if step.operator == 'solution' else []
+            for elem in step.frm + step.to + operands:
+                if isinstance(elem, PlateSlicer):
+                    will_be_used.add(elem.plate.name)
+                elif isinstance(elem, (Container, Plate)):
+                    will_be_used.add(elem.name)
+        if not set(self.results).issubset(will_be_used):
+            raise ValueError("Something declared as used wasn't used.")
+
         # Implicitly end the current stage
         if self.current_stage != 'all':
             self.end_stage(self.current_stage)
